@@ -141,14 +141,15 @@ Section Conforms.
     | AAny => true
     | AUnion _ args => Nat.leb 2 (List.length args) && forallb supported_in args
     | ALiteral vals => negb (Nat.eqb (List.length vals) 0) && forallb scalar_value vals
-    | ANewType s => match s with ACls c => negb (cls_eqb c CInspectEmpty) | _ => false end
+    | ANewType s => match s with ACls c => negb (cls_eqb c CInspectEmpty) | _ => supported_in s end
     | AFwdRef n => match ctx n with Some c => plain_cls_ok c | None => false end
     | AGeneric sp o args =>
         arity_ok o (List.length args)
-        && match sp with SpBuiltin => builtin_spellable o | SpTyping => true end
+        && match sp with SpBuiltin => builtin_spellable o | SpTyping => true | SpAbc => false end
         && match o with TType => match args with [ACls c] => negb (cls_eqb c CInspectEmpty) | [AAny] => true | _ => false end
                       | _ => forallb supported_in args end
-    | ATupleVar _ e => supported_in e
+    | ATupleVar sp e => negb (is_abc sp) && supported_in e
+    | ATupleEmpty sp => negb (is_abc sp)
     | ACallable ps r =>
         simple_ann r && match ps with Some l => forallb simple_ann l | None => true end
     | _ => false
